@@ -30,13 +30,14 @@ ANCHORS = [
     ("tangelo/linq/translator/translate_cirq.py", "translate_c_to_cirq", "cirq translator iterating over source gates"),
     ("tangelo/linq/translator/translate_sympy.py", "translate_c_to_sympy", "sympy translator iterating over source gates"),
 ]
-REQUIRED = {"metadata_after_step": 1000, "readonly_unchanged": 300, "rejected_add_gate_no_effect": 31, "gate_constructor_rejects": 60, "copy_consistent": 500, "depth": 500}
+REQUIRED = {"live_observations_total": 50, "metadata_after_step": 1000, "readonly_unchanged": 300, "rejected_add_gate_no_effect": 31, "gate_constructor_rejects": 60, "copy_consistent": 500, "depth": 500}
 BUDGET = {"quick": 240, "thorough": 2400}
 
 
 def cases(tier, seed):
     n = 400 if tier == "quick" else 16000
-    return [{"sub": "history", "i": i} for i in range(n)] + [{"sub": "gatefuzz", "i": i} for i in range(8 if tier == "quick" else 100)]
+    out = [{"sub": "repo_tests", "tier": tier}]
+    return out + [{"sub": "history", "i": i} for i in range(n)] + [{"sub": "gatefuzz", "i": i} for i in range(8 if tier == "quick" else 100)]
 
 
 def glist(c):
@@ -356,5 +357,19 @@ def run_gatefuzz(case, ctx):
         ctx.check("gate_constructor_accepts", ok, "valid gate not normalised to lists of python ints", {"gate": g, "form": form, "got": repr(gg)})
 
 
+def run_repo_tests(case, ctx):
+    """The repository's own circuit tests as an additional workload for the class-level metadata / read-only monitors."""
+    from vlib.harness import run_repo_tests_under_monitors
+    if case["tier"] == "quick":
+        paths = ["tangelo/linq/tests/test_circuits.py", "tangelo/linq/tests/test_gates.py", "tangelo/linq/tests/test_translator_circuit.py"]
+        workers = 1
+    else:
+        paths = ["tangelo/linq/tests", "tangelo/toolboxes/circuits/tests", "tangelo/toolboxes/ansatz_generator/tests", "tangelo/toolboxes/operators/tests/test_trim_trivial_qubits.py"]
+        workers = 6
+    n = run_repo_tests_under_monitors(ctx, paths, "live_", workers=workers, only=("metadata_", "readonly_", "rejected_"))
+    ctx.nontrivial(("repo_tests", tuple(paths)))
+    ctx.sample({"sub": "repo_tests", "paths": paths, "monitor_observations": n})
+
+
 def run_case(case, ctx):
-    {"history": run_history, "gatefuzz": run_gatefuzz}[case["sub"]](case, ctx)
+    {"history": run_history, "gatefuzz": run_gatefuzz, "repo_tests": run_repo_tests}[case["sub"]](case, ctx)
